@@ -106,26 +106,58 @@ def run_case(case):
 
 def empty_synth():
     import io
+    import os
+    import tempfile
 
     import rv.api as rv
     from rv.errors import EmptySynthError
 
+    def never_had():
+        return rv.Synth()
+
+    def module_removed():
+        s = rv.Synth(rv.m.Filter())
+        s.read()
+        s.module = None
+        return s
+
     vs = []
-    for how in ("read", "write_to", "chunks"):
-        s = rv.Synth()
-        f = io.BytesIO()
-        try:
-            if how == "read":
-                s.read()
-            elif how == "write_to":
-                s.write_to(f)
-            else:
-                list(s.chunks())
-            vs.append(C.viol("empty-synth-serialises", {"how": how}, {"bytes": f.getvalue()}, {"empty_synth": True}))
-        except EmptySynthError:
-            pass
-        except Exception as e:
-            vs.append(C.viol("empty-synth-wrong-error", {"how": how, "exc": type(e).__name__}, {}, {"empty_synth": True}))
+    for origin, make in (("never-had-a-module", never_had), ("module-removed-after-a-save", module_removed)):
+        for how in ("read", "write_to", "chunks", "first-chunk", "write_to-file"):
+            s = make()
+            f = io.BytesIO()
+            written = None
+            key = {"how": how, "origin": origin}
+            try:
+                if how == "read":
+                    s.read()
+                elif how == "write_to":
+                    try:
+                        s.write_to(f)
+                    finally:
+                        written = f.getvalue()
+                elif how == "chunks":
+                    list(s.chunks())
+                elif how == "first-chunk":
+                    next(iter(s.chunks()))
+                else:
+                    d = tempfile.mkdtemp(prefix="rvmc-c02-")
+                    path = os.path.join(d, "x.sunsynth")
+                    try:
+                        with open(path, "wb") as fh:
+                            s.write_to(fh)
+                    finally:
+                        written = open(path, "rb").read()
+                        os.unlink(path)
+                        os.rmdir(d)
+                vs.append(C.viol("empty-synth-serialises", key, {"bytes": repr(f.getvalue())}, {"empty_synth": True}))
+            except EmptySynthError:
+                # "refuses to serialize instead of writing a broken file": nothing may have reached the sink
+                if written:
+                    vs.append(C.viol("empty-synth-partial-file", key, {"bytes": repr(written[:40])},
+                                     {"empty_synth": True}))
+            except Exception as e:
+                vs.append(C.viol("empty-synth-wrong-error", dict(key, exc=type(e).__name__), {}, {"empty_synth": True}))
     return vs
 
 
@@ -197,7 +229,44 @@ def resave_after_edit(tkey):
                 vs.append(C.viol("edit-of-loaded-module-not-written", {"type": tkey, "op": ("options-off" if pre else op["k"] + ":" + str(op.get("p", ""))),
                                                                        "path": C.first_diff_key(d)},
                                  {"diff": S.diff_text(d)}, case))
+        # differential futures: a module and its loaded copy are interchangeable, so the SAME edit applied to both
+        # must leave them equal (an accessor object that still points at what the load replaced loses the edit
+        # on the copy only)
+        try:
+            base = deviate.new_module(tkey)
+            twin = base.clone()
+            outcome = []
+            for x in (base, twin):
+                try:
+                    c17.apply_inplace(x, op)
+                    outcome.append("ok")
+                except Exception as e:
+                    outcome.append(type(e).__name__)
+        except Exception:
+            continue
+        n += 1
+        opk = op["k"] + ":" + str(op.get("p", ""))
+        if outcome[0] != outcome[1]:
+            vs.append(C.viol("same-edit-accepted-differently-after-load", {"type": tkey, "op": opk},
+                             {"original": outcome[0], "loaded": outcome[1]}, case))
+        elif outcome[0] == "ok":
+            for what, a, b in (("object", base, twin), ("next-file", base.clone(), twin.clone())):
+                d = S.diff(C.norm_module_for_compare(S.module(a, in_project=False)), S.module(b, in_project=False))
+                if not d and views(a) != views(b):
+                    d = [("views", views(a), views(b))]
+                if d:
+                    vs.append(C.viol("same-edit-diverges-after-load", {"type": tkey, "op": opk, "what": what,
+                                                                       "path": C.first_diff_key(d)},
+                                     {"diff": S.diff_text(d)}, case))
+                    break
     return n, vs
+
+
+def views(mod):
+    """Secondary public accessors over the same payload (not part of the canonical snapshot)."""
+    if mod.mtype == "SpectraVoice":
+        return [(int(h.freq_hz), int(h.volume), int(h.width), int(getattr(h.type, "value", h.type))) for h in mod.harmonics]
+    return None
 
 
 class _FailingWriter:
